@@ -259,40 +259,47 @@ UserSMPAbort(p) ==
 \* its own key (a genuine exchange with E), or claims the peer's key (signature cannot verify).
 \* ------------------------------------------------------------------------
 EId == 301
+\* each element: k = the name under which the driver concretises it, m = the abstract message
 Tampered(m) ==
-  CASE m.t = "DHC" -> {[m EXCEPT !.enc = -1], [m EXCEPT !.hash = -1]}
-    [] m.t = "DHK" -> {[m EXCEPT !.gy = -2], [m EXCEPT !.gy = -1001]}
-    [] m.t = "RS"  -> {[m EXCEPT !.r = -1], [m EXCEPT !.xs.ok = FALSE], [m EXCEPT !.xs.sig = FALSE]}
-    [] m.t = "SIG" -> {[m EXCEPT !.xs.ok = FALSE], [m EXCEPT !.xs.sig = FALSE]}
-    [] m.t = "D"   -> {[m EXCEPT !.mac = <<0, 0>>], [m EXCEPT !.mac = <<0, 0>>, !.ctr = @ + 1], [m EXCEPT !.mac = <<0, 0>>, !.text = -1]}
-    [] OTHER -> {}
-  \cup (IF m.t \in {"DHC", "DHK", "RS", "SIG", "D"} /\ m.v = 3 THEN {[m EXCEPT !.st = 3], [m EXCEPT !.rt = 3], [m EXCEPT !.st = -1]} ELSE {})
+  LET T(k, mm) == [k |-> k, m |-> mm] IN
+  (CASE m.t = "DHC" -> {T("enc", [m EXCEPT !.enc = -1]), T("hash", [m EXCEPT !.hash = -1])}
+    [] m.t = "DHK" -> {T("gy-deg", [m EXCEPT !.gy = -2]), T("gy-other", [m EXCEPT !.gy = -1001])}
+    [] m.t = "RS"  -> {T("r", [m EXCEPT !.r = -1]), T("xs-ok", [m EXCEPT !.xs.ok = FALSE]), T("xs-sig", [m EXCEPT !.xs.sig = FALSE])}
+    [] m.t = "SIG" -> {T("xs-ok", [m EXCEPT !.xs.ok = FALSE]), T("xs-sig", [m EXCEPT !.xs.sig = FALSE])}
+    [] m.t = "D"   -> {T("mac", [m EXCEPT !.mac = <<0, 0>>]), T("mac-ctr", [m EXCEPT !.mac = <<0, 0>>, !.ctr = @ + 1]),
+                       T("mac-text", [m EXCEPT !.mac = <<0, 0>>, !.text = -1])}
+    [] OTHER -> {})
+  \cup (IF m.t \in {"DHC", "DHK", "RS", "SIG", "D"} /\ m.v = 3
+        THEN {T("st-other", [m EXCEPT !.st = 3]), T("rt-other", [m EXCEPT !.rt = 3]), T("st-invalid", [m EXCEPT !.st = -1])} ELSE {})
 
 Forged(p) ==
   LET s == st[p]
       v == IF s.ver = 0 THEN 3 ELSE s.ver
       hdr == [v |-> v, st |-> IF v = 3 THEN 3 ELSE 0, rt |-> IF v = 3 THEN s.otag ELSE 0]
-  IN {[t |-> "DHC", v |-> hdr.v, st |-> hdr.st, rt |-> hdr.rt, enc |-> EId, hash |-> EId],
-      [t |-> "DHC", v |-> hdr.v, st |-> hdr.st, rt |-> hdr.rt, enc |-> -2, hash |-> -2],
-      [t |-> "DHK", v |-> hdr.v, st |-> hdr.st, rt |-> hdr.rt, gy |-> EId]}
-     \cup {[t |-> "RS", v |-> hdr.v, st |-> hdr.st, rt |-> hdr.rt, r |-> EId,
-            xs |-> [ok |-> TRUE, kind |-> "R", s1 |-> EId, s2 |-> s.ax, pub |-> who, kid |-> 1, sig |-> (who = "E")]] : who \in {"E", Other(p)}}
-     \cup {[t |-> "SIG", v |-> hdr.v, st |-> hdr.st, rt |-> hdr.rt,
-            xs |-> [ok |-> TRUE, kind |-> "S", s1 |-> EId, s2 |-> s.ax, pub |-> who, kid |-> 1, sig |-> (who = "E")]] : who \in {"E", Other(p)}}
+      T(k, mm) == [k |-> k, m |-> mm]
+  IN {T("f-dhc", [t |-> "DHC", v |-> hdr.v, st |-> hdr.st, rt |-> hdr.rt, enc |-> EId, hash |-> EId]),
+      T("f-dhc-deg", [t |-> "DHC", v |-> hdr.v, st |-> hdr.st, rt |-> hdr.rt, enc |-> -2, hash |-> -2]),
+      T("f-dhk", [t |-> "DHK", v |-> hdr.v, st |-> hdr.st, rt |-> hdr.rt, gy |-> EId])}
+     \cup {T("f-rs-" \o who, [t |-> "RS", v |-> hdr.v, st |-> hdr.st, rt |-> hdr.rt, r |-> EId,
+            xs |-> [ok |-> TRUE, kind |-> "R", s1 |-> EId, s2 |-> s.ax, pub |-> who, kid |-> 1, sig |-> (who = "E")]]) : who \in {"E", Other(p)}}
+     \cup {T("f-sig-" \o who, [t |-> "SIG", v |-> hdr.v, st |-> hdr.st, rt |-> hdr.rt,
+            xs |-> [ok |-> TRUE, kind |-> "S", s1 |-> EId, s2 |-> s.ax, pub |-> who, kid |-> 1, sig |-> (who = "E")]]) : who \in {"E", Other(p)}}
 
 \* what E is told is not delivered to the genuine peer
 AttackerDeliver(p) ==
   /\ phase = "free" /\ budget.atk > 0
-  /\ \E m \in (UNION {Tampered(net[p][i]) : i \in DOMAIN net[p]}) \cup Forged(p) :
-       \E hi \in BOOLEAN :
-        LET r == ReceiveFrags(st[p], m, 1, FreshId(p), hi /\ m.t = "DHC" /\ st[p].auth = "awDHKey")
+  /\ \E c \in (UNION {{[k |-> x.k, m |-> x.m, i |-> i] : x \in Tampered(net[p][i])} : i \in DOMAIN net[p]})
+                  \cup {[k |-> x.k, m |-> x.m, i |-> 0] : x \in Forged(p)} :
+       \E hi \in (IF c.m.t = "DHC" /\ st[p].auth = "awDHKey" THEN BOOLEAN ELSE {FALSE}) :
+        LET m == c.m
+            r == ReceiveFrags(st[p], m, 1, FreshId(p), hi)
         IN /\ st' = [st EXCEPT ![p] = r.s]
            /\ nx' = [nx EXCEPT ![p] = IF Uses(r.s, FreshId(p)) /\ ~Uses(st[p], FreshId(p)) THEN @ + 1 ELSE @]
            /\ evlog' = [evlog EXCEPT ![p] = @ \o SecEvents(r.evs)]
            /\ ksess' = [ksess EXCEPT ![p] = IF \E i \in DOMAIN r.evs : r.evs[i] \in {"sec:GoneSecure", "sec:StillSecure"} THEN r.s.sess ELSE @]
            /\ delivered' = [delivered EXCEPT ![p] = IF r.plain # NoText THEN Append(@, <<r.plain, ~Unflagged(r)>>) ELSE @]
            /\ atkplain' = atkplain + (IF r.plain # NoText /\ Unflagged(r) /\ m.t = "D" /\ m.mac = <<0, 0>> THEN 1 ELSE 0)
-           /\ path' = IF Export THEN Append(path, [a |-> "Attack", p |-> p, m |-> m]) ELSE path
+           /\ path' = IF Export THEN Append(path, [a |-> "Attack", p |-> p, f |-> c.k, i |-> c.i, q |-> hi]) ELSE path
   /\ budget' = [budget EXCEPT !.atk = @ - 1]
   /\ UNCHANGED <<net, nt, nsend, pc, order, phase, accepted, rejects, used, disclosedEver, leaks, txlog, nrun, smplog>>
 
